@@ -117,6 +117,20 @@ def kg_argsort(a, backend, descending=False):
             return backend.argsort(a, descending=descending)
 
     # Slow path: nested arrays or strings need element-by-element comparison
-    def _e(x):
-        return (-np.inf, x) if is_empty(a[x]) else (np.max(a[x]), x) if is_list(a[x]) else (a[x], x)
-    return np.asarray(sorted(range(len(a)), key=_e, reverse=descending))
+    def _cmp(p, q):
+        # lists are compared by comparing their elements pairwise and recursively; a proper prefix sorts first
+        if is_list(p) and is_list(q):
+            for u, v in zip(p, q):
+                c = _cmp(u, v)
+                if c != 0:
+                    return c
+            return (len(p) > len(q)) - (len(p) < len(q))
+        if is_list(p) or is_list(q):
+            return -1 if is_list(p) and is_empty(p) else 1 if is_list(q) and is_empty(q) else (
+                _cmp(p, [q]) if is_list(p) else _cmp([p], q))
+        return int(p > q) - int(p < q)
+
+    def _e(x, y):
+        return _cmp(a[x], a[y]) or ((x > y) - (x < y))
+    import functools
+    return np.asarray(sorted(range(len(a)), key=functools.cmp_to_key(_e), reverse=descending))
